@@ -246,14 +246,15 @@ theorem wFramesLoop_spec (hv : AllValid exts nbF) (hnf : nbF ≤ 48) (hmxl : mx.
           | some k =>
             rw [hlp] at hll
             obtain ⟨jL, hj, ⟨eL, heL, hfL⟩, j3, j4, j5⟩ := hll
-            simp only at j3 j5
+            try simp only at j3 j5
             rw [hI.eq (nbF - 1) (by omega) (by omega)] at j3 j5
             rw [hj]
             constructor
             · rintro ⟨hl, hjj⟩
               have : jL = j' := by simpa using hjj
               subst this
-              simp [hl, j5]
+              simp only [hl, if_true, Option.some.injEq, Nat.zero_add]
+              first | exact ⟨rfl, j5.symm⟩ | exact j5.symm
             · intro h
               by_cases hl : last = true
               · simp only [hl, if_true, Option.some.injEq, Nat.zero_add] at h
@@ -288,14 +289,13 @@ theorem wFramesLoop_spec (hv : AllValid exts nbF) (hnf : nbF ≤ 48) (hmxl : mx.
       rw [W.bind_of_ok _ r1]
       refine ⟨sG, g1, g2, ?_⟩
       rw [content_append, r8, g3, hremsF, r6, r7]
-      have hcur1 : curAfter s.currFrame ((remQ exts mx s.minIdx f).take R) = f := by
-        unfold curAfter
+      have hcur1 : lastFrame s.currFrame ((remQ exts mx s.minIdx f).take R) = f := by
         rw [lastFrame_same _ _ (fun e he => (hav e (List.mem_of_mem_take he)).2)]
         have : (remQ exts mx s.minIdx f).take R ≠ [] := by
           intro h; have := congrArg List.length h; rw [hpre, hprelen] at this; simp at this; omega
         simp [this]
-      simp only [hRpos, if_true, true_and, hcur1, hpre, hpostq, curAfter, hlaterlen, List.append_assoc]
-      rw [← hpre]
+      simp only [hRpos, if_true, true_and, hpostq, curAfter, hlaterlen, List.append_assoc]
+      rw [← hpre, hcur1]
   | case2 f s hge =>
     intro hI hcount
     rw [remsFrom_end exts mx s.minIdx (by omega)] at hcount ⊢
